@@ -529,7 +529,7 @@ def scenario(ch, cfg):
                     if got_local is not None and got_local != ("ok", canon(ctwin(nm))):
                         viol("C13:reverse:value-mismatch:stored-value", f"the server stored {lit} as {nm} on the client; the client reads {str(got_local)[:120]}")
             elif k == 13:   # another client connects (the server's .srv.o callback runs) while this client's call is running on the server
-                stats["probe_client_connects_during_a_call", "probe_server_calls_client", "probe_second_handle_by_address_closed"] += 1
+                stats["probe_client_connects_during_a_call"] += 1
                 from sim.klnode import Node
                 newc = Node(w, net, f"E{i}")
                 delay = ch.draw(12, "conndelay")
